@@ -102,7 +102,62 @@ Theorem C16_json_numpy_refuted :
 Proof. eexists. split; vm_compute; reflexivity. Qed.
 Print Assumptions C16_json_numpy_refuted.
 
+(* ------------------------------------------------------------------------------------------ tensors *)
+
+(** to_pytorch / from_pytorch, for every container additions can build (scalar, length-1 and length-n parameters alike)
+    and every rounding function [rnd] (float32 rounding in the code): to_pytorch succeeds, returns the IDs in order and
+    one tensor per parameter in the order of the shape dict, each with one row per ID; reading it back gives the same IDs
+    in the same order, every entry with the same names (in shape-dict order), every value the vector of the rounded
+    cells: a scalar () comes back as a vector (1,) — the documented "always 2D" — and sizes are otherwise unchanged. *)
+Theorem C16_torch_roundtrip : forall (rnd : Q -> Q) (c : container) (sh : shapes_t),
+  wf c -> shapes c = Some sh ->
+  to_pytorch rnd c = Ok (indices c, torch_dict rnd c sh)
+  /\ map fst (torch_dict rnd c sh) = map fst sh
+  /\ Forall (fun kt => List.length (snd kt) = List.length (indices c)) (torch_dict rnd c sh)
+  /\ from_pytorch (map IdStr (indices c)) (map (fun kt => (fst kt, T2 (snd kt))) (torch_dict rnd c sh))
+     = Ok (vec_container rnd c sh).
+Proof. exact torch_roundtrip. Qed.
+Print Assumptions C16_torch_roundtrip.
+
+(** [vec_container] keeps every name: the names of every entry are a permutation of those of the shape dict *)
+Theorem C16_names_kept : forall (sh : shapes_t) (e : entry),
+  NoDup (map fst sh) -> entry_wf sh e -> Permutation (map fst sh) (map fst e).
+Proof. exact entry_wf_names. Qed.
+Print Assumptions C16_names_kept.
+
+Example C16_torch_example :
+  exists c, add_all empty [(IdStr "007", ArgDict [("xi", VAtom (ANum KFloat (1 # 2))); ("sources", VList [ANum KInt 3; ANum KFloat (-3 # 4)])]);
+                           (IdStr "1e3", ArgDict [("sources", VArr1 false [1 # 4; 5]); ("xi", VAtom (ANum KNpFloat32 2))])] = Ok c
+    /\ wf c
+    /\ vec_container (fun q => q) c [("xi", []); ("sources", [2%nat])]
+       = mkC ["007"; "1e3"]
+             [("007", [("xi", Vec [(KFloat, 1 # 2)]); ("sources", Vec [(KFloat, 3); (KFloat, -3 # 4)])]);
+              ("1e3", [("xi", Vec [(KFloat, 2)]); ("sources", Vec [(KFloat, 1 # 4); (KFloat, 5)])])]
+             (Some [("xi", [1%nat]); ("sources", [2%nat])]).
+Proof.
+  eexists. split; [vm_compute; reflexivity|]. split; [|vm_compute; reflexivity].
+  unfold wf. simpl. repeat split; try discriminate; repeat constructor; simpl; intuition discriminate.
+Qed.
+
 (* ------------------------------------------------------------------------------------------ table *)
+
+(** to_dataframe / from_dataframe.  Partial: for names without '_' (and different from the index label "ID") and
+    vector-valued parameters only ([table_safe]); then to_dataframe succeeds and reading the table back gives the same IDs
+    in the same order, the same names, the same shapes and the same values, every value as a list of floats (a list or a
+    1-d array on the way in).  What is missing from the property: scalar parameters ([C16_scalar_refuted]) and names
+    with '_' ([C16_underscore_refuted]). *)
+Theorem C16_table_roundtrip_partial : forall (c : container) (sh : shapes_t),
+  wf c -> shapes c = Some sh -> table_safe sh ->
+  to_dataframe c = Ok (table_of c sh)
+  /\ from_dataframe (table_of c sh) = Ok (vec_container (fun q => q) c sh)
+  /\ map (fun ps => (fst ps, [size_of_shape (snd ps)])) sh = sh.
+Proof. exact table_roundtrip. Qed.
+Print Assumptions C16_table_roundtrip_partial.
+
+Example C16_table_safe_example :
+  table_safe [("xi", [1%nat]); ("tau", [1%nat]); ("sources", [3%nat]); ("source", [1%nat])]
+  /\ map colsf [("xi", [1%nat]); ("sources", [2%nat]); ("source", [1%nat])] = [["xi"]; ["sources_0"; "sources_1"]; ["source_0"]].
+Proof. split; [|reflexivity]. unfold table_safe, no_underscore. repeat constructor; simpl; discriminate. Qed.
 
 (** F7a: the docstring example of add_individual_parameters cannot be converted to a table. *)
 Theorem C16_scalar_refuted :
@@ -122,6 +177,25 @@ Proof. do 3 eexists. repeat split; vm_compute; reflexivity. Qed.
 Print Assumptions C16_underscore_refuted.
 
 (* ------------------------------------------------------------------------------------------ csv, paths, empty *)
+
+(** save(csv) / load.  Partial: as the table round trip, for non-empty names and IDs that are not one of pandas'
+    missing-value tokens ([C16_csv_na_id_refuted]); numeric-looking IDs ("007", "1e3") come back as the same strings. *)
+Theorem C16_csv_roundtrip_partial : forall (c : container) (sh : shapes_t),
+  wf c -> shapes c = Some sh -> table_safe sh ->
+  Forall (fun ps => fst ps <> "") sh -> Forall (fun i => ~ In i na_tokens) (indices c) ->
+  csv_roundtrip c = Ok (vec_container (fun q => q) c sh).
+Proof. exact csv_roundtrip_ok. Qed.
+Print Assumptions C16_csv_roundtrip_partial.
+
+Example C16_csv_example :
+  exists c, add_all empty [(IdStr "007", ArgDict [("xi", VList [ANum KFloat (1 # 2)]); ("sources", VList [ANum KInt 3; ANum KFloat (-3 # 4)])]);
+                           (IdStr "1e3", ArgDict [("xi", VArr1 false [2]); ("sources", VList [ANum KFloat (1 # 4); ANum KFloat 5])])] = Ok c
+    /\ Forall (fun i => ~ In i na_tokens) (indices c)
+    /\ csv_roundtrip c = Ok (vec_container (fun q => q) c [("xi", [1%nat]); ("sources", [2%nat])]).
+Proof.
+  eexists. split; [vm_compute; reflexivity|]. split; [|vm_compute; reflexivity].
+  simpl. repeat constructor; simpl; intuition discriminate.
+Qed.
 
 (** An ID that pandas reads as a missing value ("NA", "nan", "null", "None", "", ...) does not survive csv. *)
 Theorem C16_csv_na_id_refuted :
